@@ -5,7 +5,7 @@ from functools import wraps
 from typing import List, Tuple, Optional
 
 from ..utils import exceptions as exc
-from ..utils.compat import is_classvar, is_final
+from ..utils.compat import is_classvar, is_final, ForwardRef
 from ..utils.datastructures import cached_property, unprovided
 from ..utils.functional import pop
 from .base import BaseParser
@@ -318,7 +318,9 @@ class FunctionParser(BaseParser):
         self.return_type = self.parse_annotation(
             annotation=self.return_annotation
         )
+        self.generate_generator_types()
 
+    def generate_generator_types(self):
         # https://docs.python.org/3/library/typing.html#typing.Generator
         if self.return_type and isinstance(self.return_type, type) and issubclass(self.return_type, Rule):
             if self.is_generator:
@@ -515,7 +517,12 @@ class FunctionParser(BaseParser):
             if self.position_type:
                 self.position_type, r = resolve_forward_type(self.position_type)
             if self.return_type:
+                late = isinstance(self.return_type, ForwardRef)
                 self.return_type, r = resolve_forward_type(self.return_type)
+                if late and r:
+                    # the whole return annotation was a string ('Iterator[Item]'):
+                    # only now the yield / send / return types of a generator can be told
+                    self.generate_generator_types()
 
     def wrap(
         self,
